@@ -20,7 +20,7 @@ def sackAck (t : Tx) (cum : Int) : Tx × Nat × Nat :=
 def sackGaps (t : Tx) (cum : Int) (gaps : List (Nat × Nat)) (doneBytes : Nat) (now : Int) :
     Tx × Nat × Bool :=
   let limit : Nat := match t.sentQ.getLast? with
-    | some l => ((l.tsn - cum) % 4294967296).toNat
+    | some l => if uint32_gt l.tsn cum then ((l.tsn - cum) % 4294967296).toNat else 0
     | none => 0
   let g := gapSeen cum limit gaps
   let h := htnaLoop g.1 g.2 t.flight doneBytes cum [] t.sentQ
@@ -200,18 +200,23 @@ theorem sackGaps_shift (k j : Int) (t : Tx) (cum : Int) (gaps : List (Nat × Nat
       = (shiftTx k j (sackGaps t cum gaps db now).1, (sackGaps t cum gaps db now).2) := by
   unfold sackGaps
   have hlim : (match (shiftTx k j t).sentQ.getLast? with
-        | some l => ((l.tsn - σ32 k cum) % 4294967296).toNat
+        | some l => if uint32_gt l.tsn (σ32 k cum) then ((l.tsn - σ32 k cum) % 4294967296).toNat else 0
         | none => 0)
       = (match t.sentQ.getLast? with
-        | some l => ((l.tsn - cum) % 4294967296).toNat
+        | some l => if uint32_gt l.tsn cum then ((l.tsn - cum) % 4294967296).toNat else 0
         | none => 0) := by
     rw [shiftTx_sentQ, List.getLast?_map]
-    cases t.sentQ.getLast? with
+    cases hl : t.sentQ.getLast? with
     | none => rfl
-    | some l => exact limit_shift k l.tsn cum
+    | some l =>
+      have hlr : R32 l.tsn := ht.1 l (List.mem_of_getLast? hl)
+      show (if uint32_gt (σ32 k l.tsn) (σ32 k cum) then ((σ32 k l.tsn - σ32 k cum) % 4294967296).toNat else 0)
+        = (if uint32_gt l.tsn cum then ((l.tsn - cum) % 4294967296).toNat else 0)
+      rw [σ32_eq_add, σ32_eq_add, Aiortc.Props.C17.uint32_gt_shift l.tsn cum k hlr hc, ← σ32_eq_add, ← σ32_eq_add,
+        limit_shift]
   simp only [hlim]
   generalize (match t.sentQ.getLast? with
-        | some l => ((l.tsn - cum) % 4294967296).toNat
+        | some l => if uint32_gt l.tsn cum then ((l.tsn - cum) % 4294967296).toNat else 0
         | none => 0) = limit
   have hg := gapSeen_range cum limit gaps hc
   simp only [gapSeen_shift, shiftTx_sentQ, shiftTx_flight]
